@@ -53,6 +53,7 @@ package netty
 
 //@ func (*handlerContext).HandleActive
 //@   params hc
+//@   locals next handler
 //@   inline
 //@   requires hc != nil && is(hc.pipeline, *pipeline) && WF(plOf(hc)) && inlist(plOf(hc), hc)
 //@   may_panic true
@@ -67,6 +68,7 @@ package netty
 
 //@ func (*handlerContext).HandleRead
 //@   params hc message
+//@   locals next handler
 //@   inline
 //@   requires hc != nil && is(hc.pipeline, *pipeline) && WF(plOf(hc)) && inlist(plOf(hc), hc)
 //@   may_panic true
@@ -81,6 +83,7 @@ package netty
 
 //@ func (*handlerContext).HandleException
 //@   params hc ex
+//@   locals next handler
 //@   inline
 //@   requires hc != nil && is(hc.pipeline, *pipeline) && WF(plOf(hc)) && inlist(plOf(hc), hc)
 //@   may_panic true
@@ -95,6 +98,7 @@ package netty
 
 //@ func (*handlerContext).HandleInactive
 //@   params hc ex
+//@   locals next handler
 //@   inline
 //@   requires hc != nil && is(hc.pipeline, *pipeline) && WF(plOf(hc)) && inlist(plOf(hc), hc)
 //@   may_panic true
@@ -109,6 +113,7 @@ package netty
 
 //@ func (*handlerContext).HandleEvent
 //@   params hc event
+//@   locals next handler
 //@   inline
 //@   requires hc != nil && is(hc.pipeline, *pipeline) && WF(plOf(hc)) && inlist(plOf(hc), hc)
 //@   may_panic true
@@ -123,6 +128,7 @@ package netty
 
 //@ func (*handlerContext).HandleWrite
 //@   params hc message
+//@   locals prev handler
 //@   inline
 //@   requires hc != nil && is(hc.pipeline, *pipeline) && WF(plOf(hc)) && inlist(plOf(hc), hc)
 //@   may_panic true
@@ -138,6 +144,7 @@ package netty
 //@ property C03 C07
 //@ func (*handlerContext).Write
 //@   params hc message
+//@   locals next handler
 //@   requires hc != nil && is(hc.pipeline, *pipeline) && WF(plOf(hc)) && inlist(plOf(hc), hc) && plOf(hc).channel != nil
 //@   loop 0 modifies none
 //@   loop 0 invariant inl: inlist(plOf(hc), next) && pos(next) <= pos(hc)
@@ -152,6 +159,7 @@ package netty
 //@ property C03 C07
 //@ func (*handlerContext).Trigger
 //@   params hc event
+//@   locals next handler
 //@   requires hc != nil && is(hc.pipeline, *pipeline) && WF(plOf(hc)) && inlist(plOf(hc), hc) && plOf(hc).channel != nil
 //@   loop 0 modifies none
 //@   loop 0 invariant inl: inlist(plOf(hc), next) && pos(next) >= pos(hc)
@@ -173,6 +181,7 @@ package netty
 //@   ensures result == p.size
 //@ func (*pipeline).IndexOf
 //@   params p comp
+//@   locals head i
 //@   param comp pure
 //@   requires WF(p) && comp != nil
 //@   loop 0 modifies none
@@ -183,6 +192,7 @@ package netty
 //@   ensures notfound: implies(result < 0, result == -1 && forall(l, 0, p.size, !comp(node(p, l).handler)))
 //@ func (*pipeline).LastIndexOf
 //@   params p comp
+//@   locals tail i
 //@   param comp pure
 //@   requires WF(p) && comp != nil
 //@   loop 0 modifies none
@@ -193,6 +203,7 @@ package netty
 //@   ensures notfound: implies(result < 0, result == -1 && forall(l, 0, p.size, !comp(node(p, l).handler)))
 //@ func (*pipeline).ContextAt
 //@   params p position
+//@   locals curNode i
 //@   requires WF(p) && position >= -1
 //@   loop 0 modifies none
 //@   loop 0 invariant inlist(p, curNode) && pos(curNode) == i && i <= position
@@ -321,6 +332,7 @@ package netty
 
 //@ func (*pipeline).AddHandler
 //@   params p position handlers
+//@   locals curNode i h oldNext
 //@   requires WF(p) && p.size + len(handlers) < 1<<40 && position >= -1
 //@   panics_iff exists(k, 0, len(handlers), !admissible(handlers[k])) || position >= p.size
 //@   modifies handlerContext.next, handlerContext.prev, pipeline.size, ghost node, ghost pos
@@ -533,6 +545,7 @@ package netty
 //@ property C01 C02 C06 C09 C10 C11 C18
 //@ func (*channel).asyncWritev
 //@   params c ctx p
+//@   locals dataLen dataBuff offset b cn packet
 //@   inline
 //@   requires asyncInv(c) && ctx != nil
 //@   modifies ghost pooltyp, ghost chclosed, elems(uint8), cell([]byte), channel.running
@@ -588,6 +601,7 @@ package netty
 //@ property C05 C06 C07 C11 C12 C13
 //@ func (*channel).Close
 //@   params c err
+//@   locals maxWaitNum
 //@   event
 //@   mode intwrap
 //@   requires chinv(c)
@@ -628,6 +642,7 @@ package netty
 //@ property C01 C02 C05 C06 C07 C09 C10 C11 C12 C18
 //@ func (*channel).writeOnce
 //@   params c
+//@   locals sendBuffers recycleBuffers pkt index buf buf size
 //@   requires asyncInv(c) && bufInv(c)
 //@   modifies all
 //@   preserves handlerContext.*, pipeline.*, ghost node, ghost pos, channel.ctx, channel.cancel, channel.transport, channel.executor, channel.pipeline, channel.writeQueue, channel.untilWrite, channel.writeBuffers, channel.recycleBuffers, channel.id, channel.closed
@@ -663,6 +678,7 @@ package netty
 //@ func (*channel).write1
 //@   params c p clone
 //@   results n err
+//@   locals wn err
 //@   event
 //@   requires chinv(c) && implies(c.writeQueue != nil, cap(c.writeQueue) >= 1) && len(p) <= 1<<47
 //@   modifies ghost pooltyp, ghost chclosed, elems(uint8), cell([]byte), channel.running
@@ -694,6 +710,7 @@ package netty
 //@ func (*channel).CtxWrite1
 //@   params c ctx p
 //@   results n err
+//@   locals wn err deadline ok
 //@   requires chinv(c) && implies(c.writeQueue != nil, cap(c.writeQueue) >= 1) && ctx != nil && len(p) <= 1<<47
 //@   modifies ghost pooltyp, ghost chclosed, elems(uint8), cell([]byte), channel.running
 //@   ensures listens_to_caller_context: implies(count("select blocking") + count("select nonblocking") == 1, evarg(first("select blocking") + first("select nonblocking") + 1, 0) == ctxdone(ctx) && evarg(first("select blocking") + first("select nonblocking") + 1, 1) == ctxdone(old(c.ctx)) && evarg(first("select blocking") + first("select nonblocking") + 1, 2) == old(c.writeQueue))
@@ -710,6 +727,7 @@ package netty
 //@ func (*channel).CtxWritev
 //@   params c ctx pv
 //@   results n err
+//@   locals wn err deadline ok
 //@   requires chinv(c) && implies(c.writeQueue != nil, cap(c.writeQueue) >= 1) && ctx != nil
 //@   modifies ghost pooltyp, ghost chclosed, elems(uint8), cell([]byte), channel.running
 //@   ensures listens_to_caller_context: implies(count("select blocking") + count("select nonblocking") == 1, evarg(first("select blocking") + first("select nonblocking") + 1, 0) == ctxdone(ctx) && evarg(first("select blocking") + first("select nonblocking") + 1, 1) == ctxdone(old(c.ctx)) && evarg(first("select blocking") + first("select nonblocking") + 1, 2) == old(c.writeQueue))
@@ -784,6 +802,7 @@ package netty
 //@ property C01 C02 C05 C06 C09 C10 C12 C13 C14 C18
 //@ func newChannelWith
 //@   params ctx pipeline transport executor id writeQueueSize untilWrite
+//@   locals childCtx cancel writeQueue writeBuffers recycleBuffers
 //@   requires ctx != nil && writeQueueSize <= 1<<40
 //@   ensures is(result, *channel) && fresh(as(result, *channel)) && as(result, *channel) != nil
 //@   ensures config: as(result, *channel).id == id && as(result, *channel).pipeline == pipeline && as(result, *channel).transport == transport && as(result, *channel).executor == executor && as(result, *channel).untilWrite == untilWrite && as(result, *channel).closed == 0 && as(result, *channel).running == 0
@@ -810,6 +829,7 @@ package netty
 //@ property C05 C13
 //@ func (*channel).serveChannel
 //@   params c
+//@   locals signal
 //@   requires chinv(c)
 //@   may_panic true
 //@   modifies all
@@ -1005,6 +1025,7 @@ package netty
 //@   ensures unregisters: nemitted() == 1 && evis(0, "Delete") && evarg(0, 0) == &bs.listeners
 //@ func (*listener).Close
 //@   params l
+//@   locals acceptor
 //@   event
 //@   requires lsnInv(l)
 //@   modifies listener.closed, listener.acceptor, listener.options
@@ -1058,6 +1079,7 @@ package netty
 // the result is the server-closed error; every accepted transport is served once as a child channel.
 //@ func (*listener).Sync
 //@   params l
+//@   locals acceptor options err t err
 //@   requires lsnInv(l) && l.bs.bootstrapOptions.channelFactory != nil && l.bs.bootstrapOptions.pipelineFactory != nil && l.bs.bootstrapOptions.channelIDFactory != nil && l.bs.bootstrapOptions.childInitializer != nil
 //@   may_panic true
 //@   modifies all
